@@ -707,3 +707,60 @@ def replay_expr_purity(p):
     bad = float(np.max(np.abs((A2 - 7.25) - A1))) > 1e-9 * max(1.0, float(np.max(np.abs(A1))))
     print("REPRODUCED" if bad else "not reproduced")
     return 1 if bad else 0
+
+
+# ---- tensor-valued expressions containing identically-zero tables (second derivatives of P1, ...) --
+
+@ereg("tensor_with_zero_table_2x2", "q")
+def _():
+    m = mesh("triangle")
+    f = ufl.Coefficient(space(m))
+    g = ufl.Coefficient(space(m, deg=2))
+    x = ufl.SpatialCoordinate(m)
+    return ufl.as_matrix([[f.dx(0).dx(1) + g, f.dx(0) * x[1]], [g.dx(1), f * g]]), TRI
+
+
+@ereg("tensor_with_zero_table_2x3", "q")
+def _():
+    m = mesh("triangle")
+    f = ufl.Coefficient(space(m))
+    g = ufl.Coefficient(space(m, deg=2))
+    return ufl.as_matrix([[f.dx(1).dx(1), f, g], [g.dx(0), f.dx(0), 2.0 * f * g]]), TRI[:2]
+
+
+@ereg("hessian_P1_plus_outer_tetrahedron", "q")
+def _():
+    m = mesh("tetrahedron")
+    f = ufl.Coefficient(space(m))
+    g = ufl.Coefficient(space(m, shape=(3,)))
+    return ufl.grad(ufl.grad(f)) + ufl.outer(g, ufl.grad(f)), TET
+
+
+@ereg("rank3_with_zero_table", "")
+def _():
+    m = mesh("triangle")
+    f = ufl.Coefficient(space(m))
+    g = ufl.Coefficient(space(m, shape=(2,)))
+    return ufl.outer(ufl.grad(ufl.grad(f)) + ufl.outer(g, g), ufl.as_vector([f, 2.0])), TRI[:2]
+
+
+@ereg("hessian_P2_coefficient", "q")
+def _():
+    m = mesh("triangle")
+    f = ufl.Coefficient(space(m, deg=2))
+    k = ufl.Constant(m)
+    return k * ufl.grad(ufl.grad(f)), TRI
+
+
+@ereg("hessian_Q2_coefficient_quadrilateral", "q")
+def _():
+    m = mesh("quadrilateral")
+    f = ufl.Coefficient(space(m, "Q", 2))
+    return ufl.grad(ufl.grad(f)), QUAD
+
+
+@ereg("hessian_P2_argument_rank1", "")
+def _():
+    m = mesh("triangle")
+    u = ufl.TrialFunction(space(m, deg=2))
+    return ufl.grad(ufl.grad(u)), TRI[:2]
